@@ -5,5 +5,7 @@ cd "$(dirname "$0")/engine"
 export PATH=/opt/veriftools/go1.26.8/bin:$PATH GOTOOLCHAIN=local GOFLAGS=-mod=vendor GOPROXY=off
 mkdir -p ../bin
 go build -o ../bin/verif ./cmd/verif
-go test ./smt/ ./interp/ 2>&1 | tail -5
+# encoder micro-suite: constant folding, model evaluation and the solver's reading of the printed
+# terms must agree (a failure makes every check inconclusive rather than trusted)
+go test ./smt/ ./interp/ || { echo "engine self-test failed"; exit 1; }
 echo "setup ok"
